@@ -50,11 +50,11 @@ CHECKS["C16"] = dict(
 )
 CHECKS["C05"] = dict(
     engine="mirsym",
-    technique="SMT (z3/cvc5) over a symbolic execution of the real MIR of network::parse_protocol_message with the postcard decoder replaced by an arbitrary decode result and a symbolic clock",
+    technique="SMT (z3/cvc5) over a symbolic execution of the real MIR of network::parse_protocol_message (postcard decoder replaced by an arbitrary decode result, symbolic clock) and of the async state machines DhtCoreEngine::handle_request and DhtNetworkManager::handle_dht_message (decoder call recorded with its path condition)",
     category="proof",
-    text="PARTIAL claim (second sentence of the property only): for every decode outcome the frame is surfaced iff it decodes and its timestamp lies in [now-300, now+30]; the surfaced source is always the connection identity, never the payload's claim; topic and payload are the decoded fields. Counterexamples are replayed natively (real postcard bytes, pinned clock).",
-    note="The decoder-robustness half (every byte string up to 128 KiB returns normally, allocation bounds, 64 KiB / count / 512-byte caps in async handlers) is NOT claimed: postcard decoding and the async dispatchers are outside solver reach. Trusts the summaries (postcard result arbitrary, strings abstract, tracing effect-free).",
-    design_ref="4/C05",
+    text="PARTIAL claim (the documented limits and the second sentence of the property): for every decode outcome the frame is surfaced iff it decodes and its timestamp lies in [now-300, now+30]; the surfaced source is always the connection identity, never the payload's claim; topic and payload are the decoded fields. A DHT frame longer than 64 KiB is refused before the decoder is called; handle_request caps the find-node count at 20 (K for find-value), refuses values over 512 bytes and leaves the store untouched when it refuses, from an arbitrary data store. Counterexamples are replayed natively (real postcard bytes, pinned clock, real manager on loopback).",
+    note="The decoder-robustness half (every byte string up to 128 KiB returns normally, allocation bounds inside postcard, string slicing in TransportHandle::parse_request_envelope) is NOT claimed: postcard decoding and UTF-8 handling are summarised, not executed. Trusts the summaries (postcard result arbitrary, strings abstract, tracing effect-free).",
+    design_ref="4/C05, 8.9",
 )
 
 CHECKS["C02"] = dict(
